@@ -83,6 +83,27 @@ func Norm(v any) any {
 	return out
 }
 
+// EmptyAsNil turns empty lists into nil (the model writes <<>> where the implementation has a nil slice inside
+// a list, e.g. the empty set of GROUPING SETS).
+func EmptyAsNil(v any) any {
+	switch x := v.(type) {
+	case map[string]any:
+		for k, c := range x {
+			x[k] = EmptyAsNil(c)
+		}
+		return x
+	case []any:
+		if len(x) == 0 {
+			return nil
+		}
+		for i, c := range x {
+			x[i] = EmptyAsNil(c)
+		}
+		return x
+	}
+	return v
+}
+
 // Layouts joins tokens in several ways that must not matter.
 func Layouts(toks []string, which int) string {
 	switch which % 4 {
